@@ -181,6 +181,15 @@ def sub_align(case):
 
 def sub_origin(case):
     ref, est = build(case)
+    nr = case.get("near")
+    if nr:
+        # geo-referenced data: both trajectories far from the world origin, the estimate's start a few (relative) units
+        # beside the reference's and (nearly) equally oriented
+        W = np.asarray(nr["dir"], dtype=float) * 10.0 ** float(nr["wexp"])
+        ref = trajgen.Real(ref.P - ref.P[0] + W, ref.Rs(), ref.mode)
+        d = np.asarray(nr["d"], dtype=float) * float(nr["drel"]) * float(np.abs(W).max() + 1.0)
+        Rd = rm.rodrigues(np.asarray(nr["dir"], dtype=float) * float(nr["rot"]))
+        est = trajgen.Real(ref.P + d, [Rd @ R for R in ref.Rs()], est.mode)
     ro = ref.build(case["ref"]["pre"])
     eo = est.build(case["est"]["pre"])
     sref = snapshot.snapshot(ro)
@@ -201,7 +210,7 @@ def sub_origin(case):
         b = rm.rel(M[i], M[i + 1])
         if float(np.abs(a[:3, :3] - b[:3, :3]).max()) > 1e-9 or float(np.abs(a[:3, 3] - b[:3, 3]).max()) > 4 * ptol:
             raise Mismatch("relative pose %d->%d changed by origin alignment" % (i, i + 1), observed="relative_pose")
-    return "origin"
+    return "origin" + ("/near" if nr else "")
 
 
 def sub_result_matrix(case):
@@ -254,6 +263,26 @@ def sub_result_matrix(case):
         if float(np.abs(T[:3, :3] - Rot @ est.poses[k][:3, :3]).max()) > 1e-8:
             raise Mismatch("recorded alignment matrix does not map orientation %d (options %s)" % (k, combo), observed="matrix_mismatch_rot",
                            combo=combo, which=case["which"])
+    # S2 through ape()/rpe(): with n_to_align = n only the first n pairs determine the recorded transformation
+    if n != -1 and n < N and (o["align"] or o["correct_scale"]):
+        rng = gen.bulk_rng(case.get("pseed", 0) + 5)
+        ref_g = trajgen.Real(np.vstack([ref.P[:n], rng.standard_normal((N - n, 3)) * 1e3]), ref.Rs(), ref.mode)
+        est_g = trajgen.Real(np.vstack([est.P[:n], rng.standard_normal((N - n, 3)) * 1e3]), est.Rs(), est.mode)
+        fn = main_ape.ape if case["which"] == "ape" else (lambda a, b, rel, **kw: main_rpe.rpe(a, b, rel, 1, metrics.Unit.frames, **kw))
+        try:
+            res_g = fn(ref_g.build(), est_g.build(), metrics.PoseRelation.translation_part, align=o["align"], correct_scale=o["correct_scale"],
+                       n_to_align=n, align_origin=False, est_name="estimate", ref_name="reference")
+            res_0 = res if not o["align_origin"] else fn(ref.build(), est.build(), metrics.PoseRelation.translation_part, align=o["align"],
+                                                         correct_scale=o["correct_scale"], n_to_align=n, align_origin=False,
+                                                         est_name="estimate", ref_name="reference")
+        except geometry.GeometryException:
+            return combo
+        A0 = np.asarray(res_0.np_arrays[key], dtype=float)
+        Ag = np.asarray(res_g.np_arrays[key], dtype=float)
+        if not np.array_equal(A0, Ag):
+            raise Mismatch("%s() with n_to_align=%d (options %s): the recorded alignment depends on poses beyond the first n" % (case["which"], n, combo),
+                           observed="uses_more_than_n", combo=combo, which=case["which"])
+        return combo + "/n"
     return combo
 
 
@@ -301,7 +330,9 @@ def _st_case(min_n, max_n, extra):
 
 st_align = _st_case(3, 24, {"mode": st.sampled_from(["rigid", "similarity", "scale"]),
                             "n": st.one_of(st.just(-1), st.integers(0, 40))})
-st_origin = _st_case(1, 12, {})
+st_origin = _st_case(1, 12, {"near": st.one_of(st.none(), st.none(), st.fixed_dictionaries({
+    "dir": st.lists(gen.unit_f, min_size=3, max_size=3), "wexp": st.sampled_from([0, 3, 5, 6, 7]), "d": st.lists(gen.unit_f, min_size=3, max_size=3),
+    "drel": st.sampled_from([1e-9, 1e-7, 3e-6, 1e-5, 1e-3]), "rot": st.sampled_from([0.0, 0.0, 1e-9, 1e-6, 1e-2])}))})
 st_result = _st_case(3, 10, {
     "which": st.sampled_from(["ape", "rpe"]),
     "opts": st.fixed_dictionaries({"align": st.booleans(), "correct_scale": st.booleans(), "align_origin": st.booleans(),
